@@ -1,0 +1,44 @@
+//go:build verif
+
+package gossip
+
+import (
+	"github.com/andydunstall/piko/pkg/gossip"
+	"github.com/andydunstall/piko/pkg/log"
+	"github.com/andydunstall/piko/server/cluster"
+)
+
+// This file only exists under the 'verif' build tag. It exposes the syncer to
+// an external verification harness.
+
+// VerifSyncer wraps the real syncer.
+type VerifSyncer struct {
+	s *syncer
+}
+
+func VerifNewSyncer(clusterState *cluster.State) *VerifSyncer {
+	return &VerifSyncer{s: newSyncer(clusterState, log.NewNopLogger())}
+}
+
+// Watcher returns the syncer as a gossip watcher.
+func (v *VerifSyncer) Watcher() gossip.Watcher { return v.s }
+
+// Sync starts syncing the local cluster state to the gossiper.
+func (v *VerifSyncer) Sync(g interface {
+	UpsertLocal(key, value string)
+	DeleteLocal(key string)
+}) {
+	v.s.Sync(g)
+}
+
+// Pending returns a copy of the pending nodes.
+func (v *VerifSyncer) Pending() map[string]*cluster.Node {
+	v.s.mu.Lock()
+	defer v.s.mu.Unlock()
+
+	pending := make(map[string]*cluster.Node)
+	for id, node := range v.s.pendingNodes {
+		pending[id] = node.Copy()
+	}
+	return pending
+}
